@@ -9,6 +9,9 @@ import numpy as np
 
 import pyhms
 import pyhms.demes.ea_deme
+import pyhms.core.problem
+import pyhms.sprout.sprout_filters
+import pyhms.sprout.sprout_generators
 from pyhms.config import (
     BaseLevelConfig,
     CMALevelConfig,
@@ -52,6 +55,8 @@ from pyhms.stop_conditions import (
 
 from . import objectives
 from .sim import HarnessError, SimCap, SimCrash, SimDemeTree, SimTimeout, World, tree_digest
+
+GLOBAL_CALLS = []  # module-level state touched by the "global_counter" objective form
 
 EA_CLASSES = {
     "SEA": _sea.SEA,
@@ -116,6 +121,46 @@ class CustomEADeme(pyhms.demes.ea_deme.EADeme):
     pass
 
 
+class WholePopulationGenerator(pyhms.sprout.sprout_generators.SproutCandidatesGenerator):
+    """User-defined generator: every individual of an active non-leaf deme is a candidate; it hands over the
+    deme's current population list as it is."""
+
+    def __call__(self, tree):
+        from pyhms.sprout.sprout_candidates import DemeCandidates, DemeFeatures
+
+        return {deme: DemeCandidates(individuals=deme.current_population, features=DemeFeatures())
+                for level in tree.levels[:-1] for deme in level if deme.is_active}
+
+
+class FunctionalFilter(pyhms.sprout.sprout_filters.DemeLevelCandidatesFilter):
+    """User-defined filter written in functional style: returns a NEW dict with NEW DemeCandidates objects
+    (keeping every candidate whose first coordinate is inside the box - i.e. all of them)."""
+
+    def __call__(self, candidates, tree):
+        from pyhms.sprout.sprout_candidates import DemeCandidates, DemeFeatures
+
+        out = {}
+        for deme, c in candidates.items():
+            lo, hi = deme._bounds[0][0], deme._bounds[0][1]
+            out[deme] = DemeCandidates(individuals=[i for i in c.individuals if lo <= i.genome[0] <= hi],
+                                       features=DemeFeatures(nbc_mean_distance=c.features.nbc_mean_distance))
+        return out
+
+
+class Mirrored(pyhms.core.problem.ProblemWrapper):
+    """User-defined wrapper that turns a problem round: minimising Mirrored(p) is maximising p (and vice versa)."""
+
+    def evaluate(self, phenome, *a, **k):
+        return -self._inner.evaluate(phenome, *a, **k)
+
+    @property
+    def maximize(self):
+        return not self._inner.maximize
+
+    def worse_than(self, first_fitness, second_fitness):
+        return self._inner.worse_than(-first_fitness, -second_fitness)
+
+
 class CallableObjective:
     """Objective given as a callable object (C19: pickled by value through its state)."""
 
@@ -156,6 +201,13 @@ def build_user_objective(plan, stack_index=0):
         return lambda x: pure(x)  # noqa: E731
     if form == "callable":
         return CallableObjective(spec)
+    if form == "global_counter":
+        # a by-value function (dill pickles nested functions by value) with a side effect on module-level state
+        def counting(x):
+            GLOBAL_CALLS.append(1)
+            return pure(x)
+
+        return counting
     raise ValueError(form)
 
 
@@ -183,6 +235,8 @@ def build_stack(plan, stack_spec, fun, bounds):
             p = PrecisionCutoffProblem(p, float(ls["opt"]), float(ls["eps"]))
         elif k == "stats":
             p = StatsGatheringProblem(p)
+        elif k == "mirror":
+            p = Mirrored(p)
         else:
             raise ValueError(k)
         layers.append(p)
@@ -285,6 +339,8 @@ def build_gsc(spec, stack_layers):
         return MetaepochLimit(int(spec["limit"]))
     if k == "fitness_eval_limit":
         w = spec.get("weights", "equal")
+        if spec.get("weights_as_str") and w in ("equal", "root"):
+            return FitnessEvalLimitReached(int(spec["limit"]), str(w))  # the documented plain-string form
         if w == "equal":
             w = WeightingStrategy.EQUAL
         elif w == "root":
@@ -341,6 +397,8 @@ def _build_sprout(spec):
         gen = NBC_Generator(float(g["distance_factor"]), float(g["truncation_factor"]))
     elif g["kind"] == "nbc_local":
         gen = NBCGeneratorWithLocalMethod(float(g["distance_factor"]), float(g["truncation_factor"]))
+    elif g["kind"] == "whole_population":
+        gen = WholePopulationGenerator()
     else:
         raise ValueError(g["kind"])
     dfs = []
@@ -352,6 +410,8 @@ def _build_sprout(spec):
                                      bool(f.get("check_only_active", False))))
         elif f["kind"] == "deme_limit":
             dfs.append(DemeLimit(int(f["limit"])))
+        elif f["kind"] == "functional":
+            dfs.append(FunctionalFilter())
         else:
             raise ValueError(f["kind"])
     tfs = []
@@ -462,6 +522,25 @@ def execute(plan, monitor_classes=(), wall_s=60.0, keep_log=True, pre_hook=None)
                     tree.run()  # calling run() on a finished tree: the condition holds, nothing may happen
                     w.fire("run-called-again")
                 w.result = tree
+            elif entry == "phases":
+                # the user calls the two phases of a metaepoch himself (as test/test_gsc.py does); the tree's
+                # metaepoch counter is NOT advanced in this driving mode
+                cfg = build_config(plan)
+                tree = SimDemeTree(cfg)
+                n_rounds = int(plan.get("phase_rounds", 6))
+                for _ in range(n_rounds):
+                    w.manual_boundary = True
+                    try:
+                        stop = tree._gsc(tree)
+                    finally:
+                        w.manual_boundary = False
+                    if stop:
+                        break
+                    w.on_step_begin(tree)
+                    tree.run_metaepoch()
+                    tree.run_sprout()
+                    w.on_step_end(tree)
+                w.result = tree
             elif entry == "steps":
                 # the user drives the tree himself, one metaepoch at a time
                 cfg = build_config(plan)
@@ -483,12 +562,19 @@ def execute(plan, monitor_classes=(), wall_s=60.0, keep_log=True, pre_hook=None)
                 w.result = tree
             elif entry == "minimize":
                 m = plan["minimize"]
-                fun = build_user_objective(plan)
+                from .sim import ObjectiveTap
+
+                # tapped from the very first call: minimize() may call fun before it builds the tree
+                fun = ObjectiveTap(w.key, 0, build_user_objective(plan))
                 bounds = build_bounds(plan)
                 if m.get("bounds_as_list"):
                     bounds = [tuple(b) for b in bounds.tolist()]
-                res = pyhms.minimize(fun, bounds, maxfun=m.get("maxfun"), maxiter=m.get("maxiter"),
-                                     seed=m.get("seed"))
+                mf = m.get("maxfun")
+                if mf is not None and m.get("maxfun_type") == "np.int64":
+                    mf = np.int64(mf)
+                elif mf is not None and m.get("maxfun_type") == "float":
+                    mf = float(mf)
+                res = pyhms.minimize(fun, bounds, maxfun=mf, maxiter=m.get("maxiter"), seed=m.get("seed"))
                 w.result = res
                 tree = w.tree
             else:
